@@ -22,6 +22,8 @@ for pid in sys.argv[2:]:
     extra = ''
     if int(rnd) >= 5:
         extra = (" Assume the property is already being checked by a property-based test harness that compares the library against independent reference implementations over randomly generated inputs, generated call sequences on one object, results kept across later calls, and element counts / lengths around 253 and 65536; aim for a defect such a harness is unlikely to generate the trigger for by chance: a magic value or a narrow numeric window, a rare combination of three or more conditions, an interaction between two API entry points that are rarely used together, an exported option / constructor / helper that ordinary tests never touch, a particular ordering of otherwise ordinary calls, or a dependence on something outside the arguments (package-level state, object identity, capacity of a caller's slice).")
+    if int(rnd) >= 9:
+        extra += (" The earlier changes listed above lean heavily on magic constants, caches and pooled buffers; this time prefer one of: (i) two cooperating sites that each look correct alone (a helper whose contract is subtly changed plus a caller that relied on the old contract for one rare shape only); (ii) a fault at a particular point - an io.Reader that fails or short-reads at a specific offset, a callback / supplier / unlocker that returns an error or an unusual value at a certain call, and what the library leaves behind or reports afterwards; (iii) a clause of the property statement or an exported function in the anchored files that none of the earlier changes touches; (iv) behaviour that differs only for a rare but legal *combination* of options, flags or argument forms.")
     txt = f"""You are given a Go library (libsv/go-bt: Bitcoin SV transactions and a script interpreter) in your own scratch git worktree at {wt} (a checkout of the library's current HEAD; work ONLY inside that directory; do not read or write anything under /verif or /repo; there is no network: every go command needs `export GOFLAGS=-mod=mod GOPROXY=off GOSUMDB=off GOTOOLCHAIN=local`).
 
 The library is claimed to satisfy this semantic property:
